@@ -133,6 +133,11 @@ func c41token(label string) string {
 	if vfTier() == 0 {
 		ntext = 3
 	}
+	return c41tokenN(label, nt, ntext)
+}
+
+// c41tokenN: one token out of the first nt tag names (start or end tag) and the first ntext texts.
+func c41tokenN(label string, nt, ntext int) string {
 	k := vfChoice(label, 2*nt+ntext)
 	switch {
 	case k < nt:
@@ -143,16 +148,20 @@ func c41token(label string) string {
 	return c41texts[k-2*nt]
 }
 
+// c41parseDoc runs Parse on a whole document and checks the result.
+func c41parseDoc(in string, opt ParseOption) {
+	doc, err := ParseWithOptions(strings.NewReader(in), opt)
+	vfAssert(err == nil, "Parse returns no error (no recovered panic)")
+	n := c41checkRoot(doc, false)
+	vfObserve("nodes", uint64(n))
+	vfReach("document")
+}
+
 // c41parse runs Parse (skeleton index < len(c41docs)) or ParseFragment (context) on the input and checks the result.
 func c41parse(sk int, body string, scripting bool) {
 	opt := ParseOptionEnableScripting(scripting)
 	if sk < len(c41docs) {
-		in := c41docs[sk] + body
-		doc, err := ParseWithOptions(strings.NewReader(in), opt)
-		vfAssert(err == nil, "Parse returns no error (no recovered panic)")
-		n := c41checkRoot(doc, false)
-		vfObserve("nodes", uint64(n))
-		vfReach("document")
+		c41parseDoc(c41docs[sk]+body, opt)
 		return
 	}
 	c := c41contexts[sk-len(c41docs)]
